@@ -43,13 +43,18 @@ func (s *PSlice) Add(addrs ...boson.Address) {
 	addrPo := make([]uint8, 0, len(addrs))
 	binChange := make([]int, s.maxBins)
 	exists := make([]bool, len(addrs))
+	seen := make(map[string]struct{}, len(addrs))
 
 	for i, addr := range addrs {
 		po := s.po(addr.Bytes())
 		addrPo = append(addrPo, po)
 		if e, _ := s.index(addr, po); e {
 			exists[i] = true
+		} else if _, dup := seen[addr.ByteString()]; dup {
+			// the same new address earlier in this batch
+			exists[i] = true
 		} else {
+			seen[addr.ByteString()] = struct{}{}
 			binChange[po]++
 		}
 	}
